@@ -62,9 +62,15 @@ def gclass(b):
 BROKEN_NUMBERS = [b"-.", b"- ", b"2e", b"1.5E-", b"1e999", b"2e+", b"-e", b"1.5e400", b"-1e999", b"12e", b"0.e", b"1e+", b"-1.5e", b"3E"]
 
 
+# words of other notations (Python, JavaScript, SQL, YAML) for the three JSON literals and for non-finite numbers: noise
+WORD_TOKENS = [b"True", b"False", b"Null", b"NULL", b"TRUE", b"FALSE", b"None", b"NaN", b"Infinity", b"undefined", b"Nil", b"Nul", b"Yes", b"No", b"N/A"]
+
+
 def gen_token(rng):
     if rng.random() < 0.12:
         return rng.choice(BROKEN_NUMBERS)
+    if rng.random() < 0.08:
+        return rng.choice(WORD_TOKENS)
     n = rng.choice((1, 1, 1, 2, 3, 6))
     return bytes(rng.choice(SPECIAL) if rng.random() < 0.5 else rng.choice(GARBAGE_BYTES) for _ in range(n))
 
@@ -168,6 +174,9 @@ def run_unit(ctx, unit):
             cases.append(("file/stderr", core.Case([target, "--on-error", "stderr"] + pargs, b"", files=[(fname, noisy)])))
             cases.append(("file/panic", core.Case([target, "--on-error", "panic"] + pargs, b"", files=[(fname, noisy)])))
             cases.append(("file/stdout", core.Case([target, "--on-error", "stdout"] + pargs, b"", files=[(fname, noisy)])))
+            if not pargs:
+                # the same file named twice: read twice, reported twice
+                cases.append(("file2x/stderr", core.Case([target, target, "--on-error", "stderr"], b"", files=[(fname, noisy)])))
         if (unit["wsseed"] & 7) == 1:
             # a clean file that starts with a byte-order mark (or other bytes an editor may put first): one more malformed region
             hd = (b"\xef\xbb\xbf", b"\xef\xbb\xbf\n", b"\xff\xfe", b"\xef\xbb\xbf ")[(unit["wsseed"] >> 3) & 3]
@@ -257,6 +266,12 @@ def run_unit(ctx, unit):
         el = [l for l in o.stderr.split(b"\n") if l]
         if o.result != "ok" or o.stdout != base.stdout or len(el) < len(regions) or any(not l.startswith(b"error:") for l in el):
             return bad("file-stderr", "the noisy stream given as a file: rows differ from the clean stream or a region is not reported", "file/stderr")
+        if "file2x/stderr" in res:
+            o2 = res["file2x/stderr"]
+            el2 = [l for l in o2.stderr.split(b"\n") if l]
+            if o2.result != "ok" or o2.stdout != base.stdout + base.stdout or len(el2) != 2 * len(el):
+                return bad("file-twice", "the noisy file named twice: %d error lines (once: %d), rows %s" % (len(el2), len(el), "doubled" if o2.stdout == base.stdout * 2 else "differ"), "file2x/stderr")
+            st.count("file_twice_runs")
         o = res["file/stdout"]
         errs_f, rest_f = split_errors(o.stdout)
         if o.result != "ok" or rest_f != base.stdout or len(errs_f) < len(regions) or o.stderr:
